@@ -158,6 +158,20 @@ type FuncSpec struct {
 	// GoX.Ctl.next S (fall through / continue), GoX.Ctl.brk S (break) or GoX.Ctl.ret r (return).
 	// SliceVars: `var x []T` declares the empty slice, which owns its (nil) backing array: `let x := ([] : List _)`, append is functional.
 	SliceVars bool
+	// ---- value-threading style added for the issuance functions (C06); all default-off (translate_c06.go)
+	// JoinIf: an `if` (with else / else-if) whose branches assign variables S of the enclosing function and leave the function only by
+	// returning an error is NOT translated by duplicating the continuation into every branch but joined:
+	//   no return inside:  let S := (if C then ..; S else S); rest
+	//   error returns:     match (if C then ..; (.ok S) else (.ok S)) with | .error err => (.error err) | .ok S => rest
+	JoinIf bool
+	// Mutators: methods (callee text, "hash.Write") that change their receiver: the statement `recv.M(a)` -> let recv := (recv).M a
+	Mutators []string
+	// InOutVal: callee text -> argument position: the callee returns a value AND changes the state of that (reference-typed) argument;
+	// its Lean twin returns (value, new argument).  `x := f(h, a)` -> let (x, h) := f h a; in a `return` the new state is dropped;
+	// anywhere else the call is UNSUPPORTED (the state change would be lost).
+	InOutVal map[string]int
+	// AlsoRet: RetVal function whose Lean twin returns (value, final value of this parameter) - the callee side of InOutVal
+	AlsoRet string
 }
 
 // StructLit: `&pkg.T{K: V, ...}` becomes `({ K := V, ... } : Lean)`, restricted to the fields in Keep.
@@ -208,6 +222,9 @@ type tr struct {
 	varTypes    map[string]string    // `var v T` declarations (Imperative): v -> source text of T
 	aliases     map[string][2]string // SliceAlias: v -> (x, n) for `v := x[:n]`
 	errResult   bool                 // Imperative: `err` currently holds the (unchecked) result of a call, as a value of type Go.R Unit
+	inOutCtx    int                  // InOutVal: 0 = such a call is not allowed here, 1 = the pair is bound by the enclosing assignment, 2 = value only (return)
+	joinDepth   int                  // JoinIf: > 0 inside a joined branch (only error returns may leave the function)
+	continueK   []cont               // LoopStyle "state": what `continue` means inside the body of the fold
 	ctl         []ctlFrame           // LoopStyle "ctl": the enclosing control loops (innermost last)
 }
 
@@ -593,6 +610,10 @@ func (t *tr) expr(e ast.Expr) string {
 			if t.spec.Imperative {
 				return "(GoX.shl " + a + " " + b + ")"
 			}
+		case token.QUO:
+			if t.spec.AlsoRet != "" || t.spec.JoinIf {
+				return "(" + a + " / " + b + ")" // integer division (the translated operands are non-negative sizes)
+			}
 		}
 		return t.bad("binary "+x.Op.String(), x)
 	case *ast.CompositeLit:
@@ -831,6 +852,9 @@ func (t *tr) call(c *ast.CallExpr) string {
 		fun = ix.X
 	}
 	full := exprString(fun)
+	if _, ok := t.spec.InOutVal[full]; ok {
+		return t.inOutCall(c, full) // translate_c06.go
+	}
 	if _, ok := fun.(*ast.ArrayType); ok && len(c.Args) == 1 {
 		return t.expr(c.Args[0]) // []byte(x), []string(x): conversions are the identity in the model
 	}
@@ -984,6 +1008,10 @@ func (t *tr) call(c *ast.CallExpr) string {
 			return "(" + id.Name + " now)"
 		}
 		return "(" + id.Name + " now " + a + ")"
+	}
+	if inner, ok := fun.(*ast.CallExpr); ok && t.spec.JoinIf {
+		// f(a)(b): the call of a returned function value
+		return "(" + t.expr(inner) + " " + t.args(c.Args) + ")"
 	}
 	return t.bad("call "+full, c)
 }
@@ -1141,6 +1169,13 @@ func (t *tr) zeroBind(body ast.Node, v string) string {
 }
 
 func (t *tr) ret(r *ast.ReturnStmt) string {
+	if t.spec.InOutVal != nil || t.spec.AlsoRet != "" || t.joinDepth > 0 {
+		return t.retC06(r) // translate_c06.go
+	}
+	return t.ret1(r)
+}
+
+func (t *tr) ret1(r *ast.ReturnStmt) string {
 	if len(t.ctl) > 0 {
 		return "(GoX.Ctl.ret " + t.ret0(r) + ")" // leaving the function from inside a GoX.loopCtl loop
 	}
@@ -1542,6 +1577,9 @@ func (t *tr) block(stmts []ast.Stmt, k cont) string {
 			if exprString(c.Fun) == "httphelper.MarshalJSON" && len(c.Args) == 2 && t.spec.RetParam == "written" {
 				return "let written := " + t.expr(c.Args[1]) + ";\n" + t.pad() + rest()
 			}
+			if out, ok := t.mutatorStmt(c, rest); ok { // FuncSpec.Mutators (translate_c06.go)
+				return out
+			}
 			// mutator method on a model value: recv.SetX(a)  ->  let recv := recv.SetX a
 			if sel, ok := c.Fun.(*ast.SelectorExpr); ok && strings.HasPrefix(sel.Sel.Name, "Set") {
 				if id, ok := sel.X.(*ast.Ident); ok {
@@ -1555,6 +1593,11 @@ func (t *tr) block(stmts []ast.Stmt, k cont) string {
 		}
 		return t.bad("expression statement", x)
 	case *ast.AssignStmt:
+		if t.spec.InOutVal != nil {
+			if out, ok := t.inOutAssign(x, rest); ok { // translate_c06.go
+				return out
+			}
+		}
 		if t.spec.Imperative {
 			if out, ok := t.imperativeAssign(x, stmts, k, rest); ok {
 				return out
@@ -1859,7 +1902,7 @@ func (t *tr) block(stmts []ast.Stmt, k cont) string {
 		return t.bad("assignment", x)
 	case *ast.IfStmt:
 		// if C { v.F = e; ... }   (no else, only assignments to one variable)  ->  let v := if C then {v with ...} else v
-		if x.Init == nil && x.Else == nil && t.spec.LetIf {
+		if x.Init == nil && x.Else == nil && t.spec.LetIf && !t.hasInOutCall(x.Body) {
 			if v, upd, ok := t.assignOnly(x.Body.List); ok {
 				return "let " + v + " := (if " + t.expr(x.Cond) + " then " + upd + " else " + v + ");\n" + t.pad() + rest()
 			}
@@ -1877,7 +1920,7 @@ func (t *tr) block(stmts []ast.Stmt, k cont) string {
 			// if v, ok := e.(T); COND { .. }  ->  the two lets of a type assertion, then the plain `if`
 			if ok && len(as.Lhs) == 2 && len(as.Rhs) == 1 {
 				okOnly := x.Else == nil && exprString(x.Cond) == exprString(as.Lhs[1]) // `; ok {` has its own rule below
-				if ta, isTA := as.Rhs[0].(*ast.TypeAssertExpr); isTA && ta.Type != nil && (t.spec.PlainUpdate || !okOnly) {
+				if ta, isTA := as.Rhs[0].(*ast.TypeAssertExpr); isTA && ta.Type != nil && (t.spec.PlainUpdate || !okOnly || t.spec.JoinIf) {
 					plain := *x
 					plain.Init = nil
 					return t.block(append([]ast.Stmt{as, &plain}, stmts[1:]...), k)
@@ -2011,6 +2054,11 @@ func (t *tr) block(stmts []ast.Stmt, k cont) string {
 			}
 			t.indent--
 			return "(if " + t.expr(x.Cond) + " then\n" + t.pad() + "  " + thenB + "\n" + t.pad() + "else\n" + t.pad() + elseB + ")"
+		}
+		if t.spec.JoinIf {
+			if out, ok := t.joinIf(x, cont); ok { // translate_c06.go
+				return out
+			}
 		}
 		t.indent++
 		thenB := t.block(x.Body.List, cont)
@@ -2687,7 +2735,9 @@ func (t *tr) stateLoop(x *ast.RangeStmt, rest cont) string {
 			fn = "GoX.foldKV"
 		}
 		t.indent++
+		t.continueK = append(t.continueK, func() string { return st }) // `continue` ends this round with the state as it is
 		body := t.block(x.Body.List, func() string { return st })
+		t.continueK = t.continueK[:len(t.continueK)-1]
 		t.indent--
 		return "let " + st + " := (" + fn + " " + t.expr(x.X) + " " + st + " (fun " + st + " " + binders + " =>\n" + t.pad() + "  " + body + "));\n" + t.pad() + rest()
 	default:
